@@ -2,6 +2,7 @@ package mon
 
 import (
 	"fmt"
+	"math"
 	"math/rand"
 	"strconv"
 	"strings"
@@ -13,16 +14,34 @@ import (
 )
 
 // alt marks a leaf of a reference value for which the documentation allows two answers.
-type alt struct{ a, b interface{} }
+type alt struct{ opts []interface{} }
+
+// mkLeaf: a plain value when there is one option, an alt otherwise (options deduplicated by typed fingerprint).
+func mkLeaf(opts ...interface{}) interface{} {
+	var u []interface{}
+	seen := map[string]bool{}
+	for _, o := range opts {
+		if f := jv.Fp(o); !seen[f] {
+			seen[f] = true
+			u = append(u, o)
+		}
+	}
+	if len(u) == 1 {
+		return u[0]
+	}
+	return alt{u}
+}
 
 // resolveAlts replaces every alt leaf of want by the alternative that got shows (else the first).
 func resolveAlts(want, got interface{}) interface{} {
 	switch w := want.(type) {
 	case alt:
-		if jv.Fp(w.b) == jv.Fp(got) {
-			return w.b
+		for _, o := range w.opts {
+			if jv.Fp(o) == jv.Fp(got) {
+				return o
+			}
 		}
-		return w.a
+		return w.opts[0]
 	case map[string]interface{}:
 		var g map[string]interface{}
 		switch t := got.(type) {
@@ -182,6 +201,17 @@ func IsNanInfSpelling(s string) bool {
 	return t == "nan" || t == "inf" || t == "infinity"
 }
 
+// refCastAll: every answer the documentation allows. One cell is open: with BOTH cast-to-int and cast-to-float enabled, a
+// text that is not an integer numeral but denotes an integral value (5.0, 1e3, 0x1p4) is a float64 by the code and may as
+// well be the int64 the cast-to-int documentation promises ("coerce numeric values to int64 ... instead of float64").
+func (c Cfg) refCastAll(s string, key string) []interface{} {
+	v := c.refCast(s, key)
+	if f, ok := v.(float64); ok && c.Cast && c.CastInt && c.CastFloat && f == math.Trunc(f) && math.Abs(f) < 9e18 {
+		return []interface{}{v, int64(f)}
+	}
+	return []interface{}{v}
+}
+
 // refCast is the documented cast decision table; strconv only defines "what the text denotes".
 func (c Cfg) refCast(s string, key string) interface{} {
 	if c.SkipFunc && key != "" && skipTag(key) {
@@ -244,7 +274,7 @@ func (c Cfg) refVal(n *xt.Node) interface{} {
 			v = refEsc(v)
 		}
 		k := c.foldAttr(a.Local)
-		m[k] = c.refCast(v, k) // attribute keys are unique after folding by construction
+		m[k] = mkLeaf(c.refCastAll(v, k)...) // attribute keys are unique after folding by construction
 	}
 	seq := 0
 	for _, k := range n.Kids() {
@@ -267,24 +297,37 @@ func (c Cfg) refVal(n *xt.Node) interface{} {
 	}
 	if t != "" {
 		if len(m) > 0 || c.SimpleAsMap {
-			v := c.refCast(t, textK)
+			opts := c.refCastAll(t, textK)
 			if c.SkipFunc && len(n.Attrs) == 0 && !c.SimpleAsMap {
 				// unspecified cell: for text beside children only, the docs do not say whether the
 				// skip function sees the element's tag or the text key; either is accepted
-				if v2 := c.refCast(t, c.foldElem(n.Local)); jv.Fp(v2) != jv.Fp(v) {
-					m[textK] = alt{v, v2}
-					return m
-				}
+				opts = append(opts, c.refCastAll(t, c.foldElem(n.Local))...)
 			}
-			m[textK] = v
+			m[textK] = mkLeaf(opts...)
 			return m
 		}
-		return c.refCast(t, c.foldElem(n.Local))
+		return mkLeaf(c.refCastAll(t, c.foldElem(n.Local))...)
 	}
 	if len(m) == 0 {
 		return ""
 	}
 	return m
+}
+
+// scopeKeepSpaces: DisableTrimWhiteSpace is documented as "white space is trimmed or not"; the code keeps blanks but still
+// trims tabs, CR and LF. Both readings agree when no text run has a tab / CR / LF / BS at an edge and the document has no
+// inter-element white space (the renderer is told so through Style.NoWS): only then is keep-spaces left on.
+func (c *Cfg) scopeKeepSpaces(root *xt.Node) {
+	if !c.KeepSpaces {
+		return
+	}
+	root.Walk(func(e *xt.Node) {
+		for _, it := range e.Items {
+			if it.Kind == xt.KText && strings.Trim(it.Text, "\t\r\n\b") != it.Text {
+				c.KeepSpaces = false
+			}
+		}
+	})
 }
 
 // usesReserved: an element/attribute key equal to an active reserved key is outside the C01 domain.
